@@ -356,9 +356,15 @@ class CodeBuilder:
     def _add_unpack_method_lines_lazy(self, method_name: str) -> None:
         if self.default_dialect is not None:
             self.add_type_modules(self.default_dialect)
+        # the stub is text: the type arguments of a specialisation are passed
+        # by name through the globals the stub is executed in
+        self.ensure_object_imported(
+            tuple(self.initial_type_args), "__lazy_type_args"
+        )
         self.add_line(
             f"CodeBuilder("
             f"cls,"
+            f"__lazy_type_args,"
             f"first_method='{method_name}',"
             f"allow_postponed_evaluation=False,"
             f"format_name='{self.format_name}',"
@@ -823,9 +829,13 @@ class CodeBuilder:
     def _add_pack_method_lines_lazy(self, method_name: str) -> None:
         if self.default_dialect is not None:
             self.add_type_modules(self.default_dialect)
+        self.ensure_object_imported(
+            tuple(self.initial_type_args), "__lazy_type_args"
+        )
         self.add_line(
             "CodeBuilder("
             "self.__class__,"
+            "__lazy_type_args,"
             f"first_method='{method_name}',"
             "allow_postponed_evaluation=False,"
             f"format_name='{self.format_name}',"
